@@ -86,6 +86,27 @@ def rf9(run):
         ins = insns_of(r['rep'])
         if not ins:
             continue
+        # (a2) lea as arithmetic: `ap` is base + (index | displacement) — an addition; `am` is index * scale — a multiplication by
+        # 1, 2, 4 or 8.  A pattern that an earlier pattern of the same opcode shadows completely (same operands, `s` against an
+        # immediate class that contains 1, 2, 4, 8) can never be selected and is not judged
+        if sp.dom == 'i' and sp.kind == 'arith' and len(ins) == 1 and len(ins[0]) > 1 and ins[0][1] == '8D':
+            shadowed = False
+            for r0 in rows:
+                if r0 is r:
+                    break
+                t0 = pat_tokens(r0['pat'])
+                if r0['code'] == code and t0 is not None and len(t0) == len(toks) and \
+                        all(a == b or (b == 's' and a in ('i0', 'i1', 'i2', 'i3')) for a, b in zip(t0, toks)):
+                    shadowed = True
+                    break
+            if not shadowed:
+                forms = [t for t in ins[0] if t.startswith('a')]
+                want = {'*': 'am', '+': 'ap'}.get(sp.op)
+                ok = want is not None and forms == [want]
+                run.ob(rule, ('lea form', r['line']), ok, {'opcode': code, 'pattern': r['pat'], 'replacement': r['rep'], 'address form': forms, 'expected': want})
+                if not ok:
+                    viol(r, 'lea address form', '%s with operands "%s" is encoded as lea with the address form %s: `ap` adds its second operand '
+                         '(base + displacement), `am` scales it — `mul r, x, 4` would compute x + 4' % (code, r['pat'], forms))
         # (b) width: the first instruction of integer arithmetic / compare patterns
         if sp.dom == 'i' and sp.kind in ('arith', 'cmp', 'bcmp', 'unary', 'overflow') and sp.width in (32, 64):
             first = ins[0]
